@@ -3703,15 +3703,18 @@ func (vm *Thread) opExecDefer() value.Value {
 	localIndex := vm.popGet().AsSmallInt()
 	deferStack := vm.getLocalValue(int(localIndex)).AsReference().(*value.NativeArrayList[*BytecodeClosure])
 
+	thrown := value.Undefined
 	for i := len(*deferStack) - 1; i >= 0; i-- {
 		deferClosure := (*deferStack)[i]
 		_, err := vm.CallBytecodeClosure(deferClosure)
 		if err.IsNotUndefined() {
-			return err
+			// the closures deferred earlier still run,
+			// the error thrown last is the one that propagates
+			thrown = err
 		}
 	}
 
-	return value.Undefined
+	return thrown
 }
 
 func (vm *Thread) opLeftBitshiftInt() {
